@@ -125,13 +125,15 @@ fn mutate_json_tree(rng: &mut Rng, v: &mut Value, depth: u32) {
     }
 }
 
+pub static THOROUGH: std::sync::atomic::AtomicBool = std::sync::atomic::AtomicBool::new(false);
+
 pub fn gen_case(rng: &mut Rng, idx: u64) -> Case {
     let tight = rng.chance(1, 4);
     let corpus = crate::corpus::all_corpus();
     let mk = |kind: &'static str, g: GCase, class: &str| Case { kind, g: Some(g), slices: None, words: None, tight, class: class.to_string() };
     let depth = [10usize, 100, 1000, 10000, 100000][rng.below(5)];
     let big = ["65535", "65536", "1000000", "3000000", "4294967295", "4294967296", "18446744073709551615", "1e9", "100000", "16777216"];
-    match rng.below(30) {
+    match rng.below(31) {
         0 => {
             let n = rng.below(200);
             let bytes: Vec<u8> = (0..n).map(|_| rng.below(256) as u8).collect();
@@ -194,8 +196,9 @@ pub fn gen_case(rng: &mut Rng, idx: u64) -> Case {
             mk("lark", GCase::lark("huge_lark_rep", &format!("start: x{{{n}}}\nx: \"a\"\n")), "huge_lark_repeat")
         }
         19 => {
-            let lit = "ab".repeat(500_000);
-            mk("lark", GCase::lark("big_lit", &format!("start: \"{lit}\"\n")), "1MB_literal")
+            // 1 MB in the thorough tier; 100 kB in the quick tier (the 1 MB case alone costs ~17 s CPU and several GiB)
+            let lit = "ab".repeat(if THOROUGH.load(std::sync::atomic::Ordering::Relaxed) { 500_000 } else { 50_000 });
+            mk("lark", GCase::lark("big_lit", &format!("start: \"{lit}\"\n")), "huge_literal")
         }
         20 => {
             let exts = ["1e308", "-1e308", "1e-320", "9007199254740993", "-9223372036854775809", "0.1000000000000000055511151231257827", "1e400", "NaN"];
@@ -251,6 +254,31 @@ pub fn gen_case(rng: &mut Rng, idx: u64) -> Case {
             let inner = ["%json {", "%regex {", "%llguidance {", "%lark {"];
             let t = format!("start: {} {}", rng.pick(&inner), mutate_bytes(rng, "\"substring_chunks\": [\"a\", \"b\"], \"type\": \"object\" } }"));
             mk("lark", GCase::lark("inline", &t), "inline_json_in_lark")
+        }
+        29 => {
+            // raw token-id ranges around the ends of the vocabulary (@N@ = vocabulary size, substituted in run_one)
+            // ends ordered by value (N is a few hundred), so that a <= b in most ranges
+            let ends = ["0", "1", "31", "32", "255", "256", "@N-2@", "@N-1@", "@N@", "@N+1@", "2147483648", "4294967295", "4294967296"];
+            let mut atom = |rng: &mut Rng| {
+                let k = 1 + rng.below(3);
+                let parts: Vec<String> = (0..k)
+                    .map(|_| {
+                        let mut i = rng.below(ends.len());
+                        let mut j = rng.below(ends.len());
+                        if i > j && !rng.chance(1, 8) {
+                            std::mem::swap(&mut i, &mut j);
+                        }
+                        if i == j || rng.chance(1, 4) { ends[i].to_string() } else { format!("{}-{}", ends[i], ends[j]) }
+                    })
+                    .collect();
+                format!("<[{}{}]>", if rng.chance(1, 3) { "^" } else { "" }, parts.join(","))
+            };
+            let t = match rng.below(3) {
+                0 => format!("start: {}\n", atom(rng)),
+                1 => format!("start: \"a\" {} \"b\"\n", atom(rng)),
+                _ => format!("start: \"a\" ({} | {})* \"b\"\n", atom(rng), atom(rng)),
+            };
+            mk("lark", GCase::lark("tokrange", &t), "token_range_extremes")
         }
         _ => {
             let c = rng.pick(&corpus).clone();
@@ -317,6 +345,16 @@ pub fn run_one(case: &Case, seed: u64) -> Outcome {
         }
     };
     let Some(g) = &case.g else { return out };
+    let g_subst;
+    let g = if case.class == "token_range_extremes" {
+        let n = v.n() as u64;
+        let mut c = g.clone();
+        c.text = c.text.replace("@N-2@", &(n - 2).to_string()).replace("@N-1@", &(n - 1).to_string()).replace("@N+1@", &(n + 1).to_string()).replace("@N@", &n.to_string());
+        g_subst = c;
+        &g_subst
+    } else {
+        g
+    };
     let p0 = panics_now();
     let tp = match std::panic::catch_unwind(std::panic::AssertUnwindSafe(|| Tp::new(&f, g))) {
         Ok(Ok(tp)) => tp,
@@ -333,11 +371,15 @@ pub fn run_one(case: &Case, seed: u64) -> Outcome {
     let n = v.n();
     let mut failed = false;
     let mut hist_len = 0usize;
-    for _ in 0..40 {
+    // half of the cases start with a phase of legal mask+commit steps only, so that positions deeper in
+    // the grammar are reached before the hostile calls begin
+    let legal_phase = if rng.chance(1, 2) { 4 + rng.below(12) } else { 0 };
+    for opi in 0..40 {
         out.ops_run += 1;
         let before = panics_now();
         let was_failed = failed;
-        match rng.below(10) {
+        let op = if opi < legal_phase { 0 } else { rng.below(10) };
+        match op {
             0..=3 => {
                 // mask (always legal while not stopped)
                 let stopped = m.stopped();
@@ -488,6 +530,7 @@ pub fn run(ctx: &mut Ctx) {
             break;
         }
         let mut rng = ctx.case_rng(idx);
+        THOROUGH.store(ctx.thorough, std::sync::atomic::Ordering::Relaxed);
         let case = gen_case(&mut rng, idx);
         if let Some(j) = journal.as_mut() {
             let head: String = case.g.as_ref().map(|g| crate::report::bytes_dbg(&g.text.as_bytes()[..g.text.len().min(200)])).unwrap_or_default();
@@ -499,7 +542,7 @@ pub fn run(ctx: &mut Ctx) {
             let mut ru: libc::rusage = std::mem::zeroed();
             libc::getrusage(libc::RUSAGE_SELF, &mut ru);
             let used = ru.ru_utime.tv_sec + ru.ru_stime.tv_sec;
-            let budget: i64 = if ctx.thorough { 120 } else { 20 };
+            let budget: i64 = if ctx.thorough { 240 } else { 40 };
             let lim = libc::rlimit { rlim_cur: (used + budget) as u64, rlim_max: libc::RLIM_INFINITY };
             libc::setrlimit(libc::RLIMIT_CPU, &lim);
         }
@@ -519,6 +562,7 @@ pub fn run(ctx: &mut Ctx) {
         ctx.rep.inc("cases");
         ctx.rep.inc(&format!("class.{}", case.class));
         ctx.rep.max("max.case_ms", ms);
+        ctx.rep.max(&format!("max_ms.{}", case.class), ms);
         if ms > 20_000 {
             ctx.rep.inc("cases_over_20s");
             ctx.rep.note(&format!("slow case {idx} ({}): {ms} ms", case.class));
